@@ -254,6 +254,44 @@ def overlay_registered(ctx, rule='C07.overlay-registered'):
     return res
 
 
+def scan_skips_empty(ctx, rule='C07.scan-skips-empty'):
+    """deleting every key of a leaf leaves an empty node in the tree until the commit rebalances it, and `current()` is None there: the cursor's advance has to
+    look at the entry it is about to return and go on when it is None below the root; returning it unexamined ends the scan at the first emptied leaf and hides
+    every later key of the transaction's own view"""
+    res = []
+    F = ctx.facts
+    try:
+        nxt, cur = ctx.need('<Cursor as Iterator>::next', 'Cursor::current')
+    except AnchorError as e:
+        return [unresolved(rule, str(e))]
+    sites = calls_to_fn(F, nxt, cur)
+    f = floor(rule, 'calls of Cursor::current in Cursor::next', len(sites), 1)
+    if f:
+        return [f]
+    for bb, t, c in sites:
+        d = t['dest']['l']
+        examined = False
+        if d != 0 and not t['dest']['pr']:
+            for b2 in nxt.reachable_blocks():
+                tt = nxt.term(b2)
+                if tt['k'] != 'switch':
+                    continue
+                for st in nxt.blocks[b2]['stmts']:
+                    if st['k'] == 'assign' and st['rv']['k'] == 'discr' and st['rv']['p']['l'] == d and op_local(tt['discr']) == st['p']['l']:
+                        # the None arm must be able to come back to the advance (a loop), not just return
+                        tg = dict((v, x) for v, x in tt['targets'])
+                        none_arm = tg.get(0, tt['otherwise'])
+                        if bb in nxt.reach_from([none_arm]):
+                            examined = True
+        if examined:
+            res.append(ok(rule, 'the entry fetched at %s is examined; a None below the root sends the cursor on to the next leaf' % nxt.loc(bb), sites=1))
+        else:
+            res.append(bad(rule, '%s | entry returned unexamined' % nxt.qual,
+                           'Cursor::next returns the result of current() at %s without looking at it: on a leaf whose keys were all deleted in this transaction current() is None, '
+                           'so the scan (and every range built on it) ends there and hides all later keys' % nxt.loc(bb), where=nxt.loc(bb)))
+    return res
+
+
 def run(ctx, tier):
     results = []
     results += overlay_first(ctx)
@@ -262,6 +300,7 @@ def run(ctx, tier):
     results += single_root(ctx)
     results += exact_match_used(ctx)
     results += overlay_registered(ctx)
+    results += scan_skips_empty(ctx)
     import c08
     results += c08.start_compare(ctx, rule='C07.range-start-compare')
     results += c08.index_agreement(ctx, rule='C07.index-agreement')
